@@ -766,7 +766,7 @@ impl Pool for Bump {
         if self.slice || self.vec {
             vec![8]
         } else {
-            vec![1, 2, 4, 8, 16, 32, 64]
+            vec![1, 2, 4, 8, 16, 32, 64, 128, 256, 4096, 3, 24]
         }
     }
     fn has_free(&self) -> bool {
@@ -828,7 +828,7 @@ impl Pool for Arena {
         self.a.stats().capacity
     }
     fn aligns(&self) -> Vec<usize> {
-        vec![1, 2, 4, 8, 16, 32, 64]
+        vec![1, 2, 4, 8, 16, 32, 64, 128, 256, 4096, 3, 24]
     }
     fn has_free(&self) -> bool {
         false
@@ -1118,7 +1118,7 @@ impl Pool for CacheOpt {
         65536
     }
     fn aligns(&self) -> Vec<usize> {
-        vec![8, 64, 128, 4096]
+        vec![1, 2, 8, 16, 32, 64, 128, 256, 4096, 65536, 96]
     }
 }
 struct Numa;
@@ -1149,7 +1149,7 @@ impl Pool for Numa {
         1 << 20
     }
     fn aligns(&self) -> Vec<usize> {
-        vec![8, 64, 256]
+        vec![1, 2, 8, 16, 32, 64, 128, 256, 4096]
     }
     fn max_live(&self) -> usize {
         8
@@ -1172,6 +1172,10 @@ fn subjects() -> Vec<String> {
         "hugepage:2mb", "cacheopt:optimal", "numa:node0", "secure:cfg_a", "secure:cfg_b", "secure:global_small", "secure:global_medium",
         "secure:global_large", "lockfree:zero_simd", "lockfree:zero_nosimd", "lockfree:zero_small64k", "fixedcap:lazy", "tiered:global",
         "bump:vec", "fl_handle:l2", "fl_handle:l3", "fl_handle:l4", "cachevec:u8", "secure:new40_a8",
+        // the alignment dimension: 1, 2, 128, 256, 4096 and 64 KiB wherever a configuration carries an alignment
+        "secure:a1", "secure:a2", "secure:a128", "secure:a256", "secure:a4096", "secure:a64k", "mempool:a1", "mempool:a2", "mempool:a128",
+        "mempool:a256", "mempool:a4096", "mempool:a64k", "fixedcap:a1", "fixedcap:a2", "fixedcap:a128", "fixedcap:a256", "fixedcap:a4096",
+        "fl_nolock:a4", "fl_nolock:a128", "fl_mutex:a64", "fl_lockfree:a256", "fl_fixed:a32",
     ]
     .iter()
     .map(|s| s.to_string())
@@ -1203,6 +1207,20 @@ fn fl_config(var: &str) -> Option<FiveLevelPoolConfig> {
         "performance_optimized" => FiveLevelPoolConfig::performance_optimized(),
         "memory_optimized" => FiveLevelPoolConfig::memory_optimized(),
         "realtime" => FiveLevelPoolConfig::realtime(),
+        "a4" | "a32" | "a64" | "a128" | "a256" => {
+            let al: usize = var[1..].parse().ok()?;
+            FiveLevelPoolConfig {
+                max_fast_block_size: 8 * al,
+                alignment: al,
+                initial_capacity: 64 * al,
+                arena_size: 64 * al,
+                fixed_capacity: None,
+                enable_cache_alignment: false,
+                cache_config: None,
+                enable_numa_awareness: false,
+                ..FiveLevelPoolConfig::default()
+            }
+        }
         "tiny" => FiveLevelPoolConfig {
             max_fast_block_size: 256,
             alignment: 8,
@@ -1232,6 +1250,12 @@ fn make(name: &str, excl: &Excl) -> Option<Box<dyn Pool>> {
                 "small_a64" => SecurePoolConfig::small_secure().with_alignment(64),
                 "new256_a16" => SecurePoolConfig::new(256, 4, 16),
                 "new64_a32_c1" => SecurePoolConfig::new(64, 2, 32).with_local_cache_size(1).with_zero_on_free(false),
+                "a1" => SecurePoolConfig::new(100, 3, 1),
+                "a2" => SecurePoolConfig::new(50, 3, 2),
+                "a128" => SecurePoolConfig::new(96, 4, 128),
+                "a256" => SecurePoolConfig::small_secure().with_alignment(256),
+                "a4096" => SecurePoolConfig::new(4096, 2, 4096).with_zero_on_alloc(true),
+                "a64k" => SecurePoolConfig::new(128, 2, 65536).with_local_cache_size(1),
                 "new40_a8" => SecurePoolConfig::new(40, 3, 8).with_zero_on_alloc(true), // below the SIMD threshold: scalar zeroing
                 // every flag that changes what allocate / release touch, in two opposite settings;
                 // chunk sizes that are no multiple of the SIMD widths
@@ -1315,6 +1339,11 @@ fn make(name: &str, excl: &Excl) -> Option<Box<dyn Pool>> {
                 "realtime" => FixedCapacityPoolConfig::realtime(),
                 "secure" => FixedCapacityPoolConfig::secure(),
                 "tiny" => FixedCapacityPoolConfig { max_block_size: 128, total_blocks: 6, ..FixedCapacityPoolConfig::default() },
+                "a1" => FixedCapacityPoolConfig { max_block_size: 100, total_blocks: 8, alignment: 1, ..FixedCapacityPoolConfig::default() },
+                "a2" => FixedCapacityPoolConfig { max_block_size: 100, total_blocks: 8, alignment: 2, ..FixedCapacityPoolConfig::default() },
+                "a128" => FixedCapacityPoolConfig { max_block_size: 1024, total_blocks: 8, alignment: 128, ..FixedCapacityPoolConfig::default() },
+                "a256" => FixedCapacityPoolConfig { max_block_size: 768, total_blocks: 8, alignment: 256, ..FixedCapacityPoolConfig::default() },
+                "a4096" => FixedCapacityPoolConfig { max_block_size: 8192, total_blocks: 6, alignment: 4096, eager_allocation: false, ..FixedCapacityPoolConfig::default() },
                 "lazy" => FixedCapacityPoolConfig { max_block_size: 200, total_blocks: 12, eager_allocation: false, secure_clear: true, ..FixedCapacityPoolConfig::default() },
                 _ => return None,
             };
@@ -1330,6 +1359,12 @@ fn make(name: &str, excl: &Excl) -> Option<Box<dyn Pool>> {
                 "medium" => PoolConfig::medium(),
                 "large" => PoolConfig::large(),
                 "custom96_a32" => PoolConfig::new(96, 2, 32),
+                "a1" => PoolConfig::new(100, 2, 1),
+                "a2" => PoolConfig::new(50, 2, 2),
+                "a128" => PoolConfig::new(96, 3, 128),
+                "a256" => PoolConfig::new(1000, 3, 256),
+                "a4096" => PoolConfig::new(4096, 2, 4096),
+                "a64k" => PoolConfig::new(128, 2, 65536),
                 _ => return None,
             };
             let (chunk, align) = (cfg.chunk_size, cfg.alignment);
